@@ -227,7 +227,7 @@ def L1(A: List[int], L: List[int]) -> bool:
 
 def _shards(tier):
     out = []
-    cfgs = [{"N": 4, "D": 3, "handoff": 1}, {"N": 3, "D": 3, "types": 2, "handoff": 0}, {"N": 3, "D": 3, "handoff": 1, "deferred": 1, "same_side": 1}, {"N": 3, "D": 3, "handoff": 0, "open": 4, "msg": 2}] if tier == "quick" else [{"N": 5, "D": 4, "handoff": 1}, {"N": 4, "D": 3, "types": 2, "handoff": 1}, {"N": 4, "D": 3, "handoff": 1, "deferred": 1, "same_side": 1}]
+    cfgs = [{"N": 4, "D": 3, "handoff": 1}, {"N": 3, "D": 3, "types": 2, "handoff": 0}, {"N": 3, "D": 3, "handoff": 1, "deferred": 1, "same_side": 1}, {"N": 3, "D": 3, "handoff": 0, "open": 4, "msg": 2}, {"N": 4, "D": 2, "handoff": 0, "open_menu": [0, 5], "types": 1, "same_type_tasks": 1}] if tier == "quick" else [{"N": 5, "D": 4, "handoff": 1}, {"N": 4, "D": 3, "types": 2, "handoff": 1}, {"N": 4, "D": 3, "handoff": 1, "deferred": 1, "same_side": 1}, {"N": 5, "D": 3, "handoff": 0, "open_menu": [0, 5], "same_type_tasks": 1}]
     for base in cfgs:
         out += [dict(base, prefix=q) for q in enumerate_prefixes(body_E1, "X", {}, base, 3)]
     return out
@@ -244,7 +244,7 @@ OBLIGATIONS = [
         shards=_shards,
         twin=[{"N": 4, "D": 3, "handoff": 1, "twin_label": "repeated-types"}],
         timeout={"quick": 100, "thorough": 1200},
-        bounds={"quick": "programs <= 4 ops (one action type: every action shares it; raise/hand-off included), and <= 3 ops with 2 solver-chosen types; <= 3 ops with deferred hand-offs (sub-task logged after its parent ended); depth <= 3; 4 expectation kinds for assertHasAction", "thorough": "<= 5 ops depth <= 4; <= 4 ops with 2 types"},
+        bounds={"quick": "programs <= 4 ops (one action type: every action shares it; raise/hand-off included), and <= 3 ops with 2 solver-chosen types; <= 3 ops with deferred hand-offs (sub-task logged after its parent ended); <= 4 ops mixing start_action and nested start_task of the same action type (interleaved tasks in one logger); depth <= 3; 4 expectation kinds for assertHasAction", "thorough": "<= 5 ops depth <= 4; <= 4 ops with 2 types"},
     ),
     Ob(
         "L1",
